@@ -125,6 +125,8 @@ type World struct {
 	keyByProg map[string]*Key
 	keyByPub  map[string]*Key
 	nodes     int
+	// Jitter (ms) is added to the timestamp of the next proposal and then reset.
+	Jitter uint64
 }
 
 // nowMs is the virtual clock in milliseconds.
@@ -312,7 +314,8 @@ func (w *World) Propose(parent bc.Hash, k int, txs []*types.Tx, asKey *Key) *Pro
 		return res
 	}
 	res.Node = n
-	ts := w.SlotTime(pb, k)
+	ts := w.SlotTime(pb, k) + w.Jitter // Jitter: a legal timestamp inside the slot, not on the slot grid
+	w.Jitter = 0
 	if ts > w.P.MaxOffsetMs {
 		SleepUntilMs(ts - w.P.MaxOffsetMs + 1)
 	}
